@@ -53,6 +53,10 @@ func init() {
 					to = T0 + 100000
 				}
 				s.Submit("setup", reqSubscription("s", id, to, pick(r, `"poll://default/w"`, `"http://localhost:9/n"`)))
+				for k := 0; k < pick(r, 0, 0, 1, 2); k++ {
+					// several subscribers of one promise: their notifications are tasks of one root like any others
+					s.Submit("setup", reqSubscription(fmt.Sprintf("s%d", k+2), id, T0+100000, `"poll://default/w3"`))
+				}
 				if r.Intn(3) == 0 || strings.Contains(id, "/") {
 					s.Submit("setup", reqCallback(id, "root", base+int64(2+r.Intn(14)), `"poll://default/w2"`))
 				}
